@@ -129,7 +129,15 @@ func c13Run(t *testing.T, s Scenario, src verifsim.DecisionSource, keep bool) *R
 	var dataDir string
 	check := func(w *World) (int, int) {
 		cats, tails := 0, 0
+		seen := map[string]bool{}
 		for _, p := range openReadFDs(dataDir) {
+			// distinct paths, not descriptors: the periodic truncation check of a
+			// follow opens the followed path a second time for an instant; that
+			// is the same read (false alarm seen with statement-level preemption)
+			if seen[p] {
+				continue
+			}
+			seen[p] = true
 			if strings.Contains(p, "/c") {
 				cats++
 			} else if strings.Contains(p, "/t") {
